@@ -102,6 +102,13 @@ CHECKS["C04"] = dict(engine="eyecite", design="4 C04", technique="TLC trace vali
          "hostile fragments, citation x hostile fragment pairs, seeded hostile documents, character mutations) for Aho-Corasick and Hyperscan (reference tokenizer on a subsample) x plain / remove_ambiguous, "
          "resolution, and annotation with the returned spans in the three modes, every call logged at its return on the error path too; TLC accepts a session iff every event is consumed."),
    note="Trusted: TLC + Json; 'every Python string' is reached through the hostile closure of the fragment grammar, bounded in depth; non-raise rejections are reported as SPEC-DRIFT (C02/C03/C06 are judged by their own checks).")
+CHECKS["C14"] = dict(engine="hyperscan", design="4 C14", technique="TLA+ model checking of HsOffsets.tla (byte/character offsets) and HsCache.tla (cache life cycle with crashes and corruptions) + replay on real cache directories + TLC-judged candidate comparison",
+   text=("HsOffsets.tla models byte-level matching with start-of-match, the widening of hits to whole characters, the byte->character offset table and the re-match; TLC checks for every text of <= 5 characters "
+         "(core / alphanumeric / punctuation / 2- and 3-byte characters) that no reference candidate is lost and every candidate is genuine. HsCache.tla models construction as separate steps (exists, load, scratch, "
+         "compile, non-atomic write) with crashes between write begin and end and eight corruption classes; TLC checks it never raises and only takes a database from an intact file; every behaviour is replayed on a real "
+         "cache directory and hyperscan.loadb's reaction to each fault class is compared with the model's environment assumption. Generated legal text with multi-byte characters before / after / between / inside "
+         "citations is run through both tokenizers and TLC judges subset, genuineness of extra candidates and agreement of get_citations."),
+   note="Trusted: TLC + Json; the domain guard of C14 (no non-ASCII whitespace / digits / case variants) holds by construction of the texts; 'genuine' witnesses are computed by re-matching on the full text; cache replay uses a 45-extractor list.")
 NA_REASON = "check not built yet (work in progress; see DESIGN.md section 10 build order)"
 checks = []
 for p in props:
@@ -139,6 +146,8 @@ m = {"version": 1,
               "serves_properties": ["C02", "C17"], "kind_free_text": "TLA+ spec of the offset arithmetic, TLC model checking, TLC-judged monitors on real extraction results"},
              {"name": "eyecite", "path": "spec/Eyecite.tla spec/Trace_Eyecite.tla harness/chk_pipeline.py harness/drv_extract.py harness/gendocs.py",
               "serves_properties": ["C04"], "kind_free_text": "session composition spec, TLC model checking, TLC trace validation of recorded sessions"},
+             {"name": "hyperscan", "path": "spec/HsOffsets.tla spec/HsCache.tla spec/MC_HsOffsets.tla spec/MC_HsCache.tla spec/Trace_Hs.tla harness/chk_hs.py harness/drv_hs.py",
+              "serves_properties": ["C14"], "kind_free_text": "TLA+ specs, TLC model checking, fault replay on real cache files, TLC-judged differential candidates"},
              {"name": "annotate", "path": "spec/Annotate.tla spec/SpanUpdater.tla spec/MC_Annotate.tla spec/MC_SpanUpdater.tla spec/Trace_Annotate.tla spec/Trace_SpanUpdater.tla harness/chk_annotate.py harness/drv_annotate.py",
               "serves_properties": ["C09", "C10", "C11"], "kind_free_text": "TLA+ spec, TLC model checking, configuration replay, TLC trace validation"}],
  "checks": checks,
